@@ -1254,6 +1254,9 @@ func (c *ctx) rewriteSelect(s *ast.SelectStmt, label *ast.Ident) []ast.Stmt {
 	}
 	if def != nil {
 		sw.Body.List = append(sw.Body.List, &ast.CaseClause{Body: c.rewriteList(def.Body)})
+	} else {
+		// keeps the block a terminating statement when every clause returns
+		sw.Body.List = append(sw.Body.List, &ast.CaseClause{Body: parseStmts("panic(\"verifsim: select dispatch: no case chosen\")")})
 	}
 	var swStmt ast.Stmt = sw
 	if label != nil {
